@@ -137,7 +137,7 @@ def run(ctx):
     # ---------------------------------------------------------------- V: real backtests (real Strategy, both simulators)
     from ..drivers import acct_vivo
     vtr = acct_vivo.run_many(acct_vivo.specs(KIND, ctx.pick(6, 120), ctx.seed, first_id=tid + len(specs) + 1,
-                                                minutes=ctx.pick((60, 90), (120, 180))))
+                                                minutes=ctx.pick((60, 90), (60, 90, 120))))
     traces += vtr
     ctx.log("V: %d backtests, %d order events" % (len(vtr), sum(len(t["ev"]) for t in vtr)))
     # ---------------------------------------------------------------- TLC decides
